@@ -124,7 +124,7 @@ def build_lib(variant="base", exclude=()):
 def cc_for(variant):
     if variant == "base":
         return "gcc", ["-O1", "-g"]
-    if variant == "asan":
+    if variant in ("asan", "asana"):
         return "clang", ["-O1", "-g", "-fno-omit-frame-pointer", "-fsanitize=address,undefined",
                          "-fno-sanitize-recover=undefined"]
     if variant in ("tsan", "tsafe"):
@@ -146,6 +146,8 @@ def build_driver(name, sources, variant="base", wraps=(), extra=(), libs=("-lgnu
                           "-DLIBCOAP_PACKAGE_BUILD=\"verif\""]
     if variant == "tsafe":
         cmd += ["-UCOAP_THREAD_SAFE", "-DCOAP_THREAD_SAFE=1"]
+    if variant == "asana":
+        cmd += ["-UNDEBUG"]
     cmd += list(extra) + srcs + [lib["lib"]]
     for w in wraps:
         cmd.append("-Wl,--wrap=" + w)
